@@ -112,6 +112,14 @@ def cases(ctx):
                 ent("leaf", "imp", "P-256", "RSAwithSHA256" if isrsa else "ECDSAwithSHA256", aki=True)]
         out.append(mk(len(out) + 1, ents, {"imp": "imp.yaml", "leaf": "leaf.yaml"}, {"imp": "CN=Imported, O=Foreign Org, C=DE", "leaf": "CN=Leaf under imported"},
                       "imported/" + (st or "default"), extra_files=[("imp.pem", {"make": {"kind": "cert+key", "key": ik, "cn": "Imported", "strType": st}})]))
+    # the issuer's CONFIGURATION names it differently than its (user-supplied, hash-less, hence untouched) certificate does:
+    # the child's issuer DN is the subject of the CERTIFICATE it is verified under
+    for ik in ("P-256", "RSA-1024"):
+        isrsa = is_rsa(ik)
+        ents = [ent("imp", None, ik, None, imported=True, key_is_rsa=isrsa),
+                ent("leaf", "imp", "P-256", "RSAwithSHA256" if isrsa else "ECDSAwithSHA256", aki=True)]
+        out.append(mk(len(out) + 1, ents, {"imp": "imp.yaml", "leaf": "l/leaf.yaml"}, {"imp": "CN=What the config calls it, O=Config Org", "leaf": "CN=Leaf under renamed"},
+                      "imported/config-names-it-differently", extra_files=[("imp.pem", {"make": {"kind": "cert+key", "key": ik, "cn": "Imported", "strType": ""}})]))
     return out
 
 
